@@ -73,7 +73,7 @@ def make_awaitable(sim, log, name, n, value, coro, exc=None):
 
 # --------------------------------------------------------------------------- any_iter
 def gen_any_iter(ch):
-    sc = {"kind": "any_iter", "outer_aw": ch.draw(2), "container": ch.draw(5), "item_aw": ch.draw(2),
+    sc = {"kind": "any_iter", "outer_aw": ch.draw(2), "container": ch.draw(6), "item_aw": ch.draw(2),
           "n": ch.draw(7), "susp": [ch.draw(3) for _ in range(3)], "coro": ch.draw(3)}
     sc["steps"] = ch.draw(sc["n"] + 2)
     return sc
@@ -107,6 +107,16 @@ async def run_any_iter(sc, sim, res, tag):
                     return agen()
 
             inner = Stream()
+        elif sc["container"] == 5:
+            # an async iterable that also offers the blocking protocol (with less in it): the async side counts
+            class DualStream:
+                def __aiter__(self):
+                    return agen()
+
+                def __iter__(self):
+                    return iter(items[:1])
+
+            inner = DualStream()
         else:
             # a class-based async iterator
             class Cursor:
@@ -300,7 +310,8 @@ SYNC_FAULTS = (InjectedFault, TypeError, ValueError, KeyError, AttributeError)
 
 def gen_sync(ch):
     # flavour 6: a plain def that returns an awaitable on some calls and a plain value on others
-    return {"kind": "sync", "flavour": ch.draw(7), "fails": ch.chance(1, 3), "susp": ch.draw(3),
+    # flavours 7/8: an async generator function (and a partial of one): calling it gives an async generator - the result
+    return {"kind": "sync", "flavour": ch.draw(9), "fails": ch.chance(1, 3), "susp": ch.draw(3),
             "pattern": [ch.draw(2) for _ in range(ch.between(2, 4))], "fault": ch.draw(len(SYNC_FAULTS))}
 
 
@@ -355,6 +366,26 @@ async def run_sync(sc, sim, res, tag):
                 got.append(("raised", err is fault))
         res["got"] = got
         res["expected"] = [("raised", True) if sc["fails"] else ("ok", ("r", (tag, k), 1)) for k in range(len(sc["pattern"]))]
+        return
+    if fl in (7, 8):
+        async def agen_fn(x, y=1):
+            log.append(("called", x, y))
+            yield ("r", x, y)
+
+        f = agen_fn if fl == 7 else functools.partial(agen_fn, y=2)
+        wrapped = L.sync(f)
+        res["same"] = res["expect_same"] = False
+        try:
+            aw = wrapped(tag)
+            res["type_ok"] = hasattr(aw, "__await__")
+            value = await aw
+            if not hasattr(value, "__anext__"):
+                res["got"] = ("not_the_async_generator", repr(value))
+            else:
+                res["got"] = ("ok", [x async for x in value])
+        except TypeError as err:
+            res["got"] = ("raised", repr(err))
+        res["expected"] = ("ok", [("r", tag, 1 if fl == 7 else 2)])
         return
     f = (plain, coro_fn, functools.partial(coro_fn, y=2), Obj(), ObjPlain(), functools.partial(plain, y=2))[fl]
     wrapped = L.sync(f)
